@@ -158,7 +158,7 @@ TFsck ==
 TraceInit ==
     /\ l = 1 /\ failed = {} /\ basefailed = {} /\ dmgfailed = {} /\ sbbad = FALSE /\ g0uninit = FALSE /\ backupok = FALSE /\ dmgfacts = <<FALSE, FALSE>> /\ cfinv = FALSE
     /\ tree = {} /\ tree0 = {} /\ cons = TRUE /\ exit = 0 /\ mode = "none" /\ dmgd = FALSE /\ dch = FALSE /\ mch = FALSE /\ lin3 = FALSE
-    /\ leaves = <<>> /\ index = <<>> /\ indexed = FALSE /\ cfm = "plain" /\ exts = <<>> /\ kind = "ext" /\ meta = {}
+    /\ leaves = <<>> /\ index = <<>> /\ indexed = FALSE /\ cfm = "plain" /\ exts = <<>> /\ kind = "ext" /\ meta = {} /\ fsize = 0
     /\ bitmap = {} /\ freecnt = 0 /\ uninit = FALSE /\ badcsum = {} /\ dmg = 0 /\ runs = 0
 TraceNext == TBase \/ TRestore \/ TDamage \/ TFsck
 TraceSpec == TraceInit /\ [][TraceNext]_tvars
